@@ -38,7 +38,14 @@ func (e *exec) input() any {
 // not a verdict for ledger properties.
 func run(c *fw.Ctx, cs *gen.Case) (*exec, bool) {
 	e := &exec{c: cs}
-	e.text = gen.PrintCanonical(cs.Script).Text
+	// the layout (blanks, line breaks, comments between tokens) varies with the case; execution
+	// must not care
+	canon := gen.PrintCanonical(cs.Script).Text
+	lr := rng.New(c.Seed, "layout|"+canon)
+	e.text = canon
+	if lr.Chance(1, 2) {
+		e.text = gen.Print(cs.Script, gen.Layout{Kind: lr.Intn(gen.NumLayouts), R: lr}).Text
+	}
 	e.parse = real.Parse(e.text)
 	if e.parse.Panicked {
 		c.Count("generated_script_parse_panicked", 1)
@@ -239,6 +246,16 @@ func tune(r *rng.R, cs *gen.Case) {
 func genCase(r *rng.R, cfg gen.LCfg) *gen.Case {
 	cs := gen.GenLedger(r, cfg)
 	tune(r, cs)
+	return cs
+}
+
+// genCaseM is genCase, and now and then one plain variable is turned into a meta()-origin
+// variable reading the same text from the store's metadata.
+func genCaseM(r *rng.R, cfg gen.LCfg) *gen.Case {
+	cs := genCase(r, cfg)
+	if r.Chance(1, 6) {
+		addMetaOrigin(cs, r.Intn(9))
+	}
 	return cs
 }
 
